@@ -902,7 +902,7 @@ def subst_params(t, mapping: dict):
     return tuple(subst_params(x, mapping) for x in t)
 
 
-def framed_closure(ctx, f, t, depth: int = 3):
+def framed_closure(ctx, f, t, depth: int = 3, with_frame: bool = False):
     """Subterms of ``t`` (a value in ``f``), following loop links, and looking into the returned
     values of package helpers that could not be inlined as values (they contain loops): the
     subterms found there are expressed in the caller's frame - the helper's parameters are replaced
@@ -915,7 +915,7 @@ def framed_closure(ctx, f, t, depth: int = 3):
         cur, mp, fn, d = stack.pop()
         for s_ in X.closure(cur):
             s2 = subst_params(s_, mp)
-            yield s2
+            yield (s2, mp) if with_frame else s2
             if s_[0] != "call" or d <= 0 or any(a[0] == "star" for a in s_[2]) or any(n == "**" for n, _ in s_[3]):
                 continue
             g, bound_self = X._inline_target(s_[1], fn)
